@@ -91,7 +91,7 @@ func (b *Builder) build(publisher notifications.Publisher) (gsmsg.GraphSyncMessa
 		},
 		ctx:             b.ctx,
 		topic:           b.topic,
-		msgSize:         b.BlockSize(),
+		msgSize:         b.BlockSize() + b.ExtensionSize(),
 		responseStreams: b.responseStreams,
 	}, nil
 }
